@@ -358,6 +358,8 @@ RULES = [
     ("C11-R5", "optional tokens and bracket styles", r5),
     ("C03-R7", "`not like` / `not <op>`: infix NOT negates the operator [shared with C03]", lambda ctx: __import__("c03").r7(ctx)),
     ("C03-R1", "`notlike` vs `not like`, `!=` vs `not =`: the negation table pairs each operator with its documented negative [shared with C03]", lambda ctx: __import__("c03").r1(ctx)),
+    ("X-LEXCLASS", "lexer operator / arithmetic character classes and context flags [shared]", lambda ctx: __import__("extra").lexer_classes(ctx)),
+    ("X-ROOTS", "root option defaults, Root::new and the per-root reset of parse_roots [shared]", lambda ctx: __import__("extra").root_defaults(ctx)),
 ]
 
 EXPLANATION = (
@@ -368,7 +370,8 @@ EXPLANATION = (
     "symbol operators consist of is_op_char characters, and no root-option word is claimed by the lexer as another "
     "lexem kind unless the roots parser handles that kind; every keyword comparison in parser.rs is made on a "
     "lower-cased value; commas, `select`, `asc`, both bracket kinds and `()` are optional by construction. "
-    "Invariance under whitespace split points depends on the lexer's context flags on arbitrary strings and is not decided.")
+    "Invariance under whitespace split points depends on the lexer's context flags on arbitrary strings and is not decided."
+    " The lexer's operator/arithmetic character classes and the possible_search_root flag are evaluated on every valuation of the context flags.")
 ASSUMPTIONS = ["rustc's HIR faithfully represents the source; exporter and rule scripts are correct",
                "docs/usage.md tables as frozen in rules/oracles.py are the documentation of record"]
 NOT_DECIDED = ["invariance under every whitespace split of the argument vector (lexer context flags on arbitrary text)",
